@@ -551,14 +551,55 @@ theorem flowpathlengths_safe (e : Ext) (nrows ncols nval outlet : Int) (code fdi
   unfold flowpathlengths
   refine wp_bind (wp_forEach (fun i hi0 hi1 => ?_) (wp_pure trivial))
   wp_lin
-  refine wp_forLoop (fun _ _ => True) _ _ _ trivial ?_ ?_
-  · intro j cur _ _ _
+  -- the walk keeps `idxcell_down` either negative or a cell of the grid
+  refine wp_forLoopP (fun _ (s : Int × Int × Int) => s.2.1 < 0 ∨ InGrid nrows ncols s.2.1)
+    (fun (s : Int × Int × Int) => s.2.1 < 0 ∨ InGrid nrows ncols s.2.1) _ _ _ (Or.inl (by simp)) ?_ ?_
+  · intro j s _ _ hs
     unfold flowpathWalk
     refine wp_bind (wp_mono (wp_downstream1 hr hc hN hfd hcode (le_refl 0) (by simp [oneExt]) (by simp [oneExt])) ?_)
-    intro d _
-    cases d <;> wp_run
-  · intro x _
-    wp_run
+    intro d hd
+    cases d with
+    | none => exact wp_pure ⟨(by intro s' h; cases h), (by intro r h; cases h; exact hs)⟩
+    | some dn =>
+      have hdn := hd.2 dn rfl
+      simp only []
+      refine wp_ite (fun hneg => wp_pure ⟨(by intro s' h; cases h), (by intro r h; cases h; exact Or.inl hneg)⟩)
+        (fun hpos => ?_)
+      have hg : InGrid nrows ncols dn := by
+        rcases hdn with h | h | h
+        · omega
+        · omega
+        · exact h
+      refine wp_ite (fun _ => wp_pure ⟨(by intro s' h; cases h), (by intro r h; cases h; exact Or.inr hg)⟩) (fun _ => ?_)
+      have hnz := ncols_ne_zero_of_inGrid hg
+      unfold stepSquareDist
+      refine wp_bind (wp_bind (wp_getnxy hnz (fun _ => wp_bind (wp_getnxy hnz (fun _ => wp_pure ?_)))))
+      exact wp_pure ⟨(by intro s' h; cases h; exact Or.inr hg), (by intro r h; cases h)⟩
+  · intro x hinv hp
+    have hx : ∀ s, (x = .inl s ∨ x = .inr s) → (s.2.1 < 0 ∨ InGrid nrows ncols s.2.1) := by
+      intro s h
+      rcases h with h | h
+      · exact hinv s h
+      · exact hp s h
+    cases x with
+    | inl s =>
+      have := hx s (Or.inl rfl)
+      simp only []
+      refine wp_ite (fun hcnd => ?_) (fun _ => by wp_lin)
+      have hg : InGrid nrows ncols s.2.1 := this.resolve_left (by omega)
+      have hnz := ncols_ne_zero_of_inGrid hg
+      unfold stepSquareDist
+      refine wp_bind (wp_bind (wp_getnxy hnz (fun _ => wp_bind (wp_getnxy hnz (fun _ => wp_pure ?_)))))
+      wp_lin
+    | inr s =>
+      have := hx s (Or.inr rfl)
+      simp only []
+      refine wp_ite (fun hcnd => ?_) (fun _ => by wp_lin)
+      have hg : InGrid nrows ncols s.2.1 := this.resolve_left (by omega)
+      have hnz := ncols_ne_zero_of_inGrid hg
+      unfold stepSquareDist
+      refine wp_bind (wp_bind (wp_getnxy hnz (fun _ => wp_bind (wp_getnxy hnz (fun _ => wp_pure ?_)))))
+      wp_lin
 /-- `c_intersect`: the cells stored so far are distinct cells of the target grid, so there are at most
 `nrows*ncols` of them — the extent `Catchment.intersect` allocates — whatever the number of points -/
 theorem intersect_safe (e : Ext) (nrows ncols nval : Int) (f : Nat → XInt × XInt)
@@ -603,6 +644,79 @@ theorem intersect_safe (e : Ext) (nrows ncols nval : Int) (f : Nat → XInt × X
     cases x with
     | inr x => exact nomatch x
     | inl s => wp_lin
+/-- `c_delineate_boundary` (after the fixes): for any area cells (sorted by `qsort`), any mask content, any grid
+with sides below 2·10⁹ — cells outside the grid are refused before they index the mask, the boundary buffer is
+written at `knext` only when a cell was found -/
+theorem delineateBoundary_safe (e : Ext) (nrows ncols nval : Int) (cells mask : Nat → Int)
+    (hr : 0 ≤ nrows ∧ nrows ≤ 2000000000) (hc : 0 ≤ ncols ∧ ncols ≤ 2000000000)
+    (hsorted : ∀ i j : Nat, i ≤ j → (j : Int) < nval → cells i ≤ cells j)
+    (h1 : nval ≤ e .idxcellsArea) (h2 : nval ≤ e .buffer) (h3 : nrows * ncols ≤ e .mask)
+    (h4 : nval ≤ e .idxboundary) :
+    Safe (delineateBoundary e nrows ncols nval cells mask) := by
+  apply safe_of_wp (Q := fun _ => True)
+  unfold delineateBoundary
+  refine wp_ite (fun _ => wp_pure trivial) (fun hv => ?_)
+  have hv : 1 ≤ nval := by omega
+  have hn0 : 0 ≤ nrows * ncols := Int.mul_nonneg hr.1 hc.1
+  have hn1 : nrows * ncols ≤ 4000000000000000000 := by nlinarith
+  refine wp_bind (wp_i64 ⟨by omega, by omega⟩ ?_)
+  refine wp_bind (wp_forEach (fun i _ _ => wp_acc ⟨by omega, by omega⟩ trivial) ?_)
+  refine wp_bind (wp_rdI ⟨by omega, by omega⟩ ?_)
+  refine wp_ite (fun _ => wp_pure trivial) (fun hfirst => ?_)
+  refine wp_bind (wp_rdI ⟨by omega, by omega⟩ ?_)
+  refine wp_ite (fun _ => wp_pure trivial) (fun hlast => ?_)
+  have hcells : ∀ i : Nat, (i : Int) < nval → 0 ≤ cells i ∧ cells i < nrows * ncols := by
+    intro i hi
+    have a := hsorted 0 i (Nat.zero_le _) hi
+    have b := hsorted i (nval - 1).toNat (by omega) (by omega)
+    simp only [Int.toNat_zero] at hfirst
+    omega
+  refine wp_bind (wp_mono (wp_bndStep1 hv h1 h2 h3 hcells hn1 hc) (fun b1 hb1 => ?_))
+  cases b1 with
+  | none => exact wp_pure trivial
+  | some buf =>
+    obtain ⟨hl1, hl2, hmem⟩ := hb1 buf rfl
+    simp only []
+    have hstart : buf.getD 0 (-1) ∈ buf := by
+      have hlt : 0 < buf.length := by omega
+      simp only [List.getD_eq_getElem?_getD, List.getElem?_eq_getElem hlt, Option.getD_some]
+      exact List.getElem_mem _
+    have hgs : InGrid nrows ncols (buf.getD 0 (-1)) := hmem _ hstart
+    refine wp_bind (wp_acc ⟨by omega, by omega⟩ ?_)
+    refine wp_bind (wp_getnxy_range hgs hc.1 (fun sxy hsxy => ?_))
+    refine wp_bind (wp_acc ⟨by omega, by omega⟩ ?_)
+    have hd : (if nrows > ncols then nrows else ncols) * (if nrows > ncols then nrows else ncols)
+        ≤ 4000000000000000000 ∧ 0 ≤ (if nrows > ncols then nrows else ncols) *
+          (if nrows > ncols then nrows else ncols) := by
+      split <;> constructor <;> nlinarith
+    refine wp_bind (wp_i64 ⟨by omega, by omega⟩ ?_)
+    refine wp_bind (wp_forLoopP (BndInv nrows ncols buf.length) (fun (s : Bnd2) => 0 ≤ s.ibnd ∧ s.ibnd < (buf.length : Int))
+      _ _ _ ?_ ?_ ?_)
+    · refine ⟨hgs, by simp, ?_, ⟨Or.inl rfl, (by intro h; simp at h)⟩, rfl⟩
+      intro b hb'
+      rcases List.mem_or_eq_of_mem_set hb' with h | h
+      · exact Or.inr (hmem b h)
+      · left; omega
+    · intro j s hj0 hj1 hI
+      exact wp_bndWalk (by omega) (by omega) ⟨hj0, by omega⟩ hr.2 hc ⟨hsxy.1, hsxy.2.1⟩
+        ⟨hsxy.2.2.1, hsxy.2.2.2⟩ hI
+    · intro x hinl hinr
+      have hib : ∀ s : Bnd2, (x = .inl s ∨ x = .inr s) → 0 ≤ s.ibnd ∧ s.ibnd ≤ (buf.length : Int) := by
+        intro s h
+        rcases h with h | h
+        · have := (hinl s h).2.2.2.2
+          omega
+        · have := hinr s h
+          omega
+      cases x with
+      | inl s =>
+        have := hib s (Or.inl rfl)
+        simp only []
+        wp_lin
+      | inr s =>
+        have := hib s (Or.inr rfl)
+        simp only []
+        wp_lin
 /-! ## wrapper obligations
 
 For every Cython wrapper `f` the generated `PyxSpec.f` gives the shapes, the integer scalars, the `assert`
@@ -991,6 +1105,24 @@ theorem flowpathlengths_wrapper (s : delineate_flowpathlengths_in_catchment.Shap
     rw [e0, e1]
   · omega
   · push_cast; rw [a4]; omega
+theorem delineate_boundary_wrapper (s : delineate_boundary.Shapes) (v : delineate_boundary.Scalars)
+    (ha : delineate_boundary.asserts s v) (hp : PyAlloc_boundary v) (cells mask : Nat → Int)
+    (hsorted : ∀ i j : Nat, i ≤ j → (j : Int) < (s.idxcells_area_0 : Int) → cells i ≤ cells j) :
+    Safe (delineateBoundary (ext_delineate_boundary (delineate_boundary.call s v))
+      (delineate_boundary.call s v).nrows (delineate_boundary.call s v).ncols
+      (delineate_boundary.call s v).nval cells mask) := by
+  unfold delineate_boundary.asserts at ha
+  obtain ⟨a1, a2, a3⟩ := ha
+  obtain ⟨p1, p2⟩ := hp
+  apply delineateBoundary_safe <;> simp only [ext_delineate_boundary, delineate_boundary.call]
+  · exact p1
+  · exact p2
+  · exact hsorted
+  · omega
+  · omega
+  · omega
+  · omega
+
 end wrappers
 
 end HydroVerif.C05
